@@ -25,6 +25,8 @@ EXPR_FRAGMENTS = [
     "a[-1]", "a[1.5]", "a['b'].c", "a | f: b: 1", "a | f: b = 1", "a | f:b:c", "x-1", "x?", "?x", "é", "日本", "\x00", "a\nb",
     "x in y\nlimit: 2", "'a' 'b'", "[x]", "[[x]]", "[1]", "['a']['b']", "a[b[c[d]]]", "a[b.c", "product required", "name required x",
     "'m' a, b: 1, c", "'m', , a", "m a b", "count: 2, x", "x: 1, count:", "when", "x or y", "1, 2 or 3", "1,", "or 1",
+    # a valid prefix followed by junk (some tag parsers stop reading at the first thing they do not understand)
+    "1, a[\"b\"] c", "1 2", "a b", "1, a.b c", "x y z", "'a' 'b' c", "1 or 2 3", "a == 1 b", "x in y z w", "x = 1 2", "'p' with a b", "a | upcase b", "1, 2,, 3", "a, b c, d",
 ]
 
 
